@@ -94,6 +94,11 @@ class XCEvalSerializable:
         return cls.from_dict(state_dict)
 
 
+def _zero_baseline(X0T):
+    """Baseline used when no additive baseline is set: zero energy."""
+    return np.zeros(X0T.shape[-1]), np.zeros_like(X0T)
+
+
 class KernelEvalBase:
 
     mode = None
@@ -188,6 +193,8 @@ class KernelEvalBase:
         return self._baseline(X0T, self._mul_basefunc)
 
     def additive_baseline(self, X0T):
+        if self._add_basefunc is None:
+            return self._baseline(X0T, _zero_baseline)
         return self._baseline(X0T, self._add_basefunc)
 
     def apply_descriptor_grad(self, X0T, dfdX1, force_polarize=False):
@@ -233,7 +240,7 @@ class KernelEvalBase:
 
         """
         m, dm = self.multiplicative_baseline(X0T)
-        add_base = add_base and self.additive_baseline is not None
+        add_base = add_base and self._add_basefunc is not None
         if add_base:
             a, da = self.additive_baseline(X0T)
 
